@@ -126,6 +126,23 @@ NOTES = {
              '(fractions stored as output values), repaired',
     'c20_7': '**missed at first**: provider fee estimates were always inside the network range; C20 got value classes around the '
              'bounds (values, values_fo)',
+    'c01_8': '**harness error at first**: the digest sub-space did enumerate hash type 0x81, but the code that NAMES a deviating hash '
+             'type only knew NONE and SINGLE and crashed (exit 2, not a detection) - a report path that had never run; corrected',
+    'c05_8': '**missed at first**: payloads were constants, counters and fillers; none looked like a witness-program header. C05 got '
+             'payloads that start like something a decoder might strip (version opcode + push length, script heads, length '
+             'prefixes, Base58 version bytes)',
+    'c06_8': '**missed at first**: partially signed multisig stacks had no empty placeholders; C06 got the 27 slot layouts '
+             '{signature, empty, absent}^3 per carrier - these showed that the unchanged library already rewrote most of them on '
+             'parsing (two genuine defects, repaired: df568f0, becc7bc - six open findings closed)',
+    'c07_8': '**missed at first**: explicit inputs were (txid, n) pairs or Input objects; C07 got the long tuple form (txid, n, key_id, '
+             'value) with correct, stale and unknown entries beyond the first',
+    'c09_8': '**missed at first**: paths were always relative to the default account; C09 got the event path_full (complete path text '
+             'naming another account) - exposed a genuine defect for wallets whose default account is not 0, repaired (2b74042)',
+    'c10_8': '**missed at first**: every ceremony spent ONE input; C10 got two-input ceremonies (sub-space cer2) with per-input '
+             'signing states: a cosigner that signs one input only',
+    'c20_8': '**missed at first**: every history had the cache database to itself; C20 got histories that start after ANOTHER network '
+             'has used the same cache (blocks at the same heights, block count, fees) and header-only requests - exposed a genuine '
+             'defect (cached block lists the other network\'s transactions), repaired (5b89518)',
     'c13': '**missed at first**: C13 verified every triple on a fresh object; it now explores verify-call histories on '
            'one Signature object (sub-space reuse)',
 }
